@@ -357,12 +357,15 @@ class Executor:
 
 
 def _san_tail(text):
-    """The sanitizer report at the end of a stderr capture (relic's own chatter removed)."""
+    """The sanitizer report at the end of a stderr capture (relic's own chatter removed), preceded
+    by the executor's last progress marker if there is one."""
+    marks = re.findall(r'SIMPROGRESS [^\n]*', text)
+    head = (marks[-1] + '\n') if marks else ''
     idx = max(text.rfind('==ERROR'), text.rfind('runtime error:'))
     if idx < 0:
-        return text[-3000:]
+        return head + text[-3000:]
     start = text.rfind('\n', 0, idx) + 1
-    return text[start:start + 12000]
+    return head + text[start:start + 12000]
 
 
 def run_once_fresh(exe, plan_path, timeout=120.0):
@@ -385,7 +388,7 @@ SAN_KIND_RE = re.compile(r'(AddressSanitizer|UndefinedBehaviorSanitizer|runtime 
 FRAME_RE = re.compile(r'#\d+ 0x[0-9a-f]+ in (\S+) ([^\n]*)')
 
 
-def crash_signature(diag):
+def crash_signature(diag, skip=()):
     """Canonical 'kind|function' of a sanitizer report or signal death."""
     kind = 'crash'
     m = re.search(r'AddressSanitizer: ([a-zA-Z0-9\-_]+)', diag)
@@ -406,7 +409,7 @@ def crash_signature(diag):
     for m in FRAME_RE.finditer(diag):
         f = m.group(1)
         where = m.group(2)
-        if f.startswith('__') or 'sanitizer' in where or 'libasan' in where or 'libubsan' in where:
+        if f.startswith('__') or 'sanitizer' in where or 'libasan' in where or 'libubsan' in where or f in skip:
             continue
         if '/exec/' in where and 'relic' not in where.split('/')[-1]:
             # a frame of the executor itself: keep looking for the relic frame but remember
@@ -458,34 +461,66 @@ def tr_hash(text):
 
 # --------------------------------------------------------------------------- worker
 
+def _crash_ident(eng, plan, diag, prop):
+    if hasattr(eng, 'crash_sig'):
+        return eng.crash_sig(plan, diag, prop)
+    cp = eng.crash_prop(plan, prop) if hasattr(eng, 'crash_prop') else prop
+    return cp, cp + '|crash|' + crash_signature(diag)
+
+
+def _merge_outcome(out, o2, plan):
+    for v in o2.violations:
+        if not hasattr(v, 'plan'):
+            v.plan = plan
+    out.violations += o2.violations
+    out.evals += o2.evals
+    out.keys |= o2.keys
+    for k, v in o2.faults.items():
+        out.faults[k] = out.faults.get(k, 0) + v
+    for k, v in o2.probes.items():
+        out.probes[k] = out.probes.get(k, 0) + v
+    out.sim_time += o2.sim_time
+
+
 def _worker(engine_mod, config, exe, prop, seed, tier, wid, nworkers, nruns, deadline, q, opts):
     signal.signal(signal.SIGINT, signal.SIG_IGN)
     eng = engine_mod
     ex = Executor(exe, '%s.%s.%d' % (eng.NAME, config, wid))
     agg = dict(runs=0, evals=0, keys=set(), faults={}, probes={}, sim_time=0, samples=[],
-               found=[], died=0, hangs=0, hashes=set(), exec_s=0.0, notes=[])
+               found=[], died=0, hangs=0, hashes=set(), exec_s=0.0, notes=[], known_seen={})
     maxkeys = 200000
     try:
         i = wid
+        known = load_known()
+        persig = {}
         while i < nruns and time.time() < deadline and len(agg['found']) < 12:
             rng = Rng.derive(seed, eng.NAME, config, i)
             plan = eng.gen_plan(rng, tier, config, opts)
-            t0 = time.time()
-            status, tr, diag = ex.run(plan, timeout=eng.TIMEOUT if hasattr(eng, 'TIMEOUT') else 60.0)
-            agg['exec_s'] += time.time() - t0
-            agg['runs'] += 1
-            if status == 'ok':
-                out = eng.check(plan, tr, config, opts)
-                agg['hashes'].add(tr_hash(tr)[:16])
-            else:
-                out = Outcome()
-                if status == 'died':
+            out = Outcome()
+            todo = plan
+            status = 'ok'
+            while todo is not None:
+                t0 = time.time()
+                status, tr, diag = ex.run(todo, timeout=eng.TIMEOUT if hasattr(eng, 'TIMEOUT') else 60.0)
+                agg['exec_s'] += time.time() - t0
+                nxt = None
+                if status == 'ok':
+                    o2 = eng.check(todo, tr, config, opts)
+                    agg['hashes'].add(tr_hash(tr)[:16])
+                    _merge_outcome(out, o2, todo)
+                elif status == 'died':
                     agg['died'] += 1
-                    cp = eng.crash_prop(plan, prop) if hasattr(eng, 'crash_prop') else prop
-                    out.violate(cp, cp + '|crash|' + crash_signature(diag), 'executor died: ' + diag[:3000])
+                    cp, sig = _crash_ident(eng, todo, diag, prop)
+                    v = Violation(cp, sig, 'executor died: ' + diag[:3000])
+                    v.plan = eng.crash_plan(todo, diag) if hasattr(eng, 'crash_plan') else todo
+                    out.violations.append(v)
+                    if hasattr(eng, 'continue_after_crash'):
+                        nxt = eng.continue_after_crash(todo, diag)
                 else:
                     agg['hangs'] += 1
                     out.violate(prop, prop + '|hang|' + eng.NAME, 'plan exceeded its time budget')
+                todo = nxt
+            agg['runs'] += 1
             agg['evals'] += out.evals
             if len(agg['keys']) < maxkeys:
                 agg['keys'] |= out.keys
@@ -503,9 +538,16 @@ def _worker(engine_mod, config, exe, prop, seed, tier, wid, nworkers, nruns, dea
                     # inside errsim belongs to C08): counted, not reported by this check
                     agg['faults']['foreign:' + v.sig[:60]] = agg['faults'].get('foreign:' + v.sig[:60], 0) + 1
                     continue
-                if len(agg['found']) < 12:
-                    agg['found'].append(dict(index=i, plan=plan, prop=v.prop, sig=v.sig, detail=v.detail,
-                                             status=status))
+                rec = dict(index=i, plan=getattr(v, 'plan', None) or plan, prop=v.prop, sig=v.sig,
+                           detail=v.detail, status=status)
+                if known_entry(v.sig, known):
+                    # listed findings: remembered once per signature, never stop the search
+                    agg['known_seen'].setdefault(v.sig, rec)
+                    agg['faults']['known:' + v.sig[:70]] = agg['faults'].get('known:' + v.sig[:70], 0) + 1
+                    continue
+                persig[v.sig] = persig.get(v.sig, 0) + 1
+                if persig[v.sig] <= 2 and len(agg['found']) < 12:
+                    agg['found'].append(rec)
             i += nworkers
     except Exception as e:  # infrastructure failure inside a worker
         import traceback
@@ -535,7 +577,7 @@ def run_engine(engine_mod, config, prop, seed, tier, nruns, max_seconds, opts=No
         procs.append(p)
     total = dict(engine=engine_mod.NAME, config=config, exe=exe, runs=0, evals=0, keys=set(), faults={}, probes={},
                  sim_time=0, samples=[], found=[], died=0, hangs=0, hashes=set(), exec_s=0.0, notes=[],
-                 infra=False, planned=nruns)
+                 infra=False, planned=nruns, known_seen={})
     for _ in procs:
         a = q.get()
         total['runs'] += a['runs']
@@ -549,6 +591,9 @@ def run_engine(engine_mod, config, prop, seed, tier, nruns, max_seconds, opts=No
         total['sim_time'] += a['sim_time']
         total['samples'] += a['samples']
         total['found'] += a['found']
+        for k, v in a['known_seen'].items():
+            if k not in total['known_seen'] or v['index'] < total['known_seen'][k]['index']:
+                total['known_seen'][k] = v
         total['died'] += a['died']
         total['hangs'] += a['hangs']
         total['exec_s'] += a['exec_s']
@@ -606,8 +651,8 @@ def _judge(engine_mod, config, plan, prop, status, tr, diag, opts):
         out = engine_mod.check(plan, tr, config, opts or {})
         return [(v.prop, v.sig, v.detail) for v in out.violations], tr_hash(tr), status
     if status == 'died':
-        cp = engine_mod.crash_prop(plan, prop) if hasattr(engine_mod, 'crash_prop') else prop
-        return [(cp, cp + '|crash|' + crash_signature(diag), diag[:3000])], 'died:' + crash_signature(diag), status
+        cp, sig = _crash_ident(engine_mod, plan, diag, prop)
+        return [(cp, sig, diag[:3000])], 'died:' + sig, status
     return [(prop, prop + '|hang|' + engine_mod.NAME, 'timeout')], 'hang', status
 
 
@@ -697,7 +742,7 @@ def shrink(engine_mod, config, exe, plan, prop, sig, opts=None, budget_runs=300,
         ex.close()
 
 
-def confirm_and_report(engine_mod, config, exe, finding, prop_checked, seed, known, opts=None, do_shrink=True):
+def confirm_and_report(engine_mod, config, exe, finding, prop_checked, seed, known, opts=None, do_shrink=True, light=False):
     """Gates + minimisation for one finding.  Returns dict(kind='violation'|'known'|'unconfirmed', ...).
 
     Gate 1: the plan is executed twice more, each time in a new executor process, and the same
@@ -710,7 +755,7 @@ def confirm_and_report(engine_mod, config, exe, finding, prop_checked, seed, kno
     sig = finding['sig']
     prop = finding['prop']
     r1 = evaluate_plan(engine_mod, config, exe, plan, prop, opts=opts)
-    r2 = evaluate_plan(engine_mod, config, exe, plan, prop, opts=opts)
+    r2 = r1 if light else evaluate_plan(engine_mod, config, exe, plan, prop, opts=opts)
     if not any(s == sig for _, s, _ in r1[0]) or not any(s == sig for _, s, _ in r2[0]):
         return dict(kind='unconfirmed', sig=sig,
                     why='gate 1: signature %s did not recur in two fresh executors (got %s / %s); the finding depended on '
@@ -719,7 +764,7 @@ def confirm_and_report(engine_mod, config, exe, finding, prop_checked, seed, kno
     nondet = r1[1] != r2[1]
     nshrink = 0
     small = plan
-    if do_shrink:
+    if do_shrink and not light:
         small, nshrink = shrink(engine_mod, config, exe, plan, prop, sig, opts=opts)
     os.makedirs(os.path.join(OUT, 'replays'), exist_ok=True)
     tag = hashlib.sha256(sig.encode()).hexdigest()[:10]
